@@ -28,6 +28,10 @@ FILTER = {
     "logsource": {"category": "process_creation", "product": "windows"},
     "filter": {"rules": ["base_rule"], "selection": {"fieldE|startswith": "x"}, "condition": "not selection"},
 }
+GLOBAL = {
+    "action": "global", "level": "critical", "tags": ["attack.g0001"], "logsource": {"product": "gp"},
+    "detection": {"gsel": {"g": 1}},
+}
 
 def node(v):
     if isinstance(v, dict):
@@ -43,9 +47,10 @@ def node(v):
     return '[t |-> "str", kv |-> <<>>, items |-> <<>>, s |-> %s, n |-> 0, d |-> 1, b |-> FALSE]' % cp(v)
 
 out = ["----------------------------- MODULE LoaderDocs -----------------------------",
-       "(* Base documents (rule, correlation rule, extended correlation rule, filter) as trees; written",
+       "(* Base documents (rule, correlation rule, extended correlation rule, filter, global action document) as trees; written",
        "   by tools/gen_c07_docs.py.  node == [t, kv, items, s, n, d, b] with t in map/list/str/int/float/bool/null. *)",
        "EXTENDS Integers, Sequences",
        "BaseRule == " + node(RULE), "BaseCorr == " + node(CORR), "BaseCorrExt == " + node(CORR_EXT), "BaseFilter == " + node(FILTER),
+       "BaseGlobal == " + node(GLOBAL),
        "============================================================================="]
 open(os.path.join(os.path.dirname(__file__), "..", "spec", "LoaderDocs.tla"), "w").write("\n".join(out) + "\n")
